@@ -34,7 +34,7 @@ type MemoCache = dict[MemoKey, RuleOutcome]
 
 
 def find_semantic_action(semantics: Any, name: str) -> Callable[..., Any] | None:
-    if not semantics:
+    if semantics is None:
         return None
 
     for rulename in (name, safe_name(name), name.strip('_'), f'_{name}', f'_{name}_'):
